@@ -40,7 +40,7 @@ def run_c13(facts, out):
         out.anchor('SS-C13', 'add impl of ' + kind, hfn is not None, fn)
         if hfn is None:
             continue
-        ctx = Ctx(facts, H.binding_inits(hfn))
+        ctx = Ctx(facts, H.binding_inits(hfn), hfn)
         b = facts.body(fn)
         where = '%s:%d' % (b.file, b.line)
         # match control_points.<lst>.binary_search_by(|p| p.time.total_cmp(&self.time)) { Err(i) => insert(i, self), Ok(i) => [i] = self }
@@ -94,7 +94,7 @@ def run_c13(facts, out):
     hfn = facts.hir.get(fn)
     out.anchor('SS-C13', 'ControlPoints::add', hfn is not None)
     if hfn is not None:
-        ctx = Ctx(facts, H.binding_inits(hfn))
+        ctx = Ctx(facts, H.binding_inits(hfn), hfn)
         pat = IF(UN('Not', M('check_already_existing', L('point'), L('self'))), CONTAINS(M('add', L('point'), L('self'))))
         hits = find(ctx, hfn['body'], pat)
         adds = find(ctx, hfn['body'], M('add', L('point'), L('self')))
@@ -115,7 +115,7 @@ def run_c13(facts, out):
         out.anchor('SS-C13', 'check_already_existing of ' + kind, hfn is not None)
         if hfn is None:
             continue
-        ctx = Ctx(facts, H.binding_inits(hfn))
+        ctx = Ctx(facts, H.binding_inits(hfn), hfn)
         res, _ = exp[kind](ctx, hfn)
         ok, why = res if isinstance(res, tuple) else (res, '')
         b = facts.body(fn)
@@ -128,7 +128,7 @@ def run_c13(facts, out):
         out.anchor('SS-C13', 'lookup ' + kind, hfn is not None)
         if hfn is None:
             continue
-        ctx = Ctx(facts, H.binding_inits(hfn))
+        ctx = Ctx(facts, H.binding_inits(hfn), hfn)
         b = facts.body(fn)
         where = '%s:%d' % (b.file, b.line)
         bs = find(ctx, hfn['body'], M('binary_search_by', ANY(), ANY()))
@@ -268,7 +268,7 @@ def run_c12(facts, out):
                     ordinal=False)
         # scroll speed assigned only under mode in {Taiko, Mania}
         hfn = facts.hir.get(TIMING)
-        ctx = Ctx(facts, H.binding_inits(hfn))
+        ctx = Ctx(facts, H.binding_inits(hfn), hfn)
         gated = []
 
         def visit(n, anc):
@@ -299,7 +299,7 @@ def run_c12(facts, out):
     hfn = facts.hir.get(fl)
     out.anchor('SS-C12', 'flush_pending_points', hfn is not None)
     if hfn is not None:
-        ctx = Ctx(facts, H.binding_inits(hfn))
+        ctx = Ctx(facts, H.binding_inits(hfn), hfn)
         taken = set()
         for kind in ('timing', 'difficulty', 'effect', 'sample'):
             if find(ctx, hfn['body'], M('take', F(L('self'), 'pending_%s_point' % kind))):
@@ -334,7 +334,7 @@ def run_c12(facts, out):
     hfn = facts.hir.get(ac)
     out.anchor('SS-C12', 'add_control_point', hfn is not None)
     if hfn is not None:
-        ctx = Ctx(facts, H.binding_inits(hfn))
+        ctx = Ctx(facts, H.binding_inits(hfn), hfn)
         bb = facts.body(ac)
         p1 = find(ctx, hfn['body'], IF(BIN('Ge', M('abs', BIN('Sub', L('time'), F(L('self'), 'pending_control_points_time'))), ANY()),
                                         CONTAINS(M('flush_pending_points', L('self')))))
@@ -408,7 +408,7 @@ def _keeps_first(facts, ctx, e):
         return False
     h = _helper_body(facts, e, ('push_front',))
     if h is not None:
-        c2 = Ctx(facts, H.binding_inits(h))
+        c2 = Ctx(facts, H.binding_inits(h), h)
         for n, anc in _assigns_some(c2, h['body']):
             return any(a.get('k') == 'if' and M('is_none', ANY()).m(c2, a['c']) for a in anc)
     return False
@@ -421,7 +421,7 @@ def _overwrites(facts, ctx, e):
         return not any(a.get('k') == 'if' for a in anc)
     h = _helper_body(facts, e, ('push_back',))
     if h is not None:
-        c2 = Ctx(facts, H.binding_inits(h))
+        c2 = Ctx(facts, H.binding_inits(h), h)
         for n, anc in _assigns_some(c2, h['body']):
             return not any(a.get('k') == 'if' for a in anc)
     return False
@@ -435,7 +435,7 @@ def run_c14(facts, out):
     out.anchor('SS-C14', 'parse_hit_objects (HIR)', hfn is not None)
     if hfn is None:
         return
-    ctx = Ctx(facts, H.binding_inits(hfn))
+    ctx = Ctx(facts, H.binding_inits(hfn), hfn)
     b = facts.body(HITOBJ)
     # if/else-if chain on has_flag
     chain = []
@@ -503,7 +503,7 @@ def run_c14(facts, out):
     fn = 'section::hit_objects::decode::HitObjectsState::last_object_was_spinner'
     h2 = facts.hir.get(fn)
     if h2 is not None:
-        c2 = Ctx(facts, H.binding_inits(h2))
+        c2 = Ctx(facts, H.binding_inits(h2), h2)
         ok = bool(find(c2, h2['body'], M('has_flag', ANY(), P('HitObjectType::SPINNER'))))
         bb = facts.body(fn)
         out.add('SS-C14', fn, 'tests-spinner-flag', '%s:%d' % (bb.file, bb.line), ok, '' if ok else 'does not test the SPINNER flag', ordinal=False)
@@ -538,7 +538,7 @@ def run_c15(facts, out):
                 ordinal=False)
         # sort operates on the same vector that is post-processed and stored
     hfn = facts.hir.get(fn)
-    ctx = Ctx(facts, H.binding_inits(hfn))
+    ctx = Ctx(facts, H.binding_inits(hfn), hfn)
     srt = find(ctx, hfn['body'], M('sort_by', L('hit_objects'), ANY()))
     okc = False
     if srt:
@@ -554,7 +554,7 @@ def run_c15(facts, out):
     h2 = facts.hir.get(pp)
     out.anchor('SS-C15', 'post_process_breaks', h2 is not None)
     if h2 is not None:
-        c2 = Ctx(facts, H.binding_inits(h2))
+        c2 = Ctx(facts, H.binding_inits(h2), h2)
         cond = find(c2, h2['body'], BIN('Lt', F(ANY(), 'end_time'), F(L('h'), 'start_time')))
         sets = 0
 
@@ -582,7 +582,7 @@ def run_curve_siblings(facts, out):
     out.anchor('SS-C18', 'Curve::new and BorrowedCurve::new', a is not None and bb is not None)
     if a is not None and bb is not None:
         for name, h in (('Curve::new', a), (bfn, bb)):
-            ctx = Ctx(facts, H.binding_inits(h))
+            ctx = Ctx(facts, H.binding_inits(h), h)
             p1 = find(ctx, h['body'], C('calculate_path', L('mode'), L('points'), L('bufs'), ANY()))
             p2 = find(ctx, h['body'], C('calculate_length', L('bufs'), L('expected_len'), L('optimized_len')))
             ok = len(p1) == 1 and len(p2) == 1
@@ -600,7 +600,7 @@ def run_curve_siblings(facts, out):
                         ps = [p_.get('name') for p_ in h3['params']]
                         if set(names) == {'mode', 'points', 'expected_len', 'bufs'} and len(ps) == 4:
                             ren = dict(zip(names, ps))
-                            c3 = Ctx(facts, H.binding_inits(h3))
+                            c3 = Ctx(facts, H.binding_inits(h3), h3)
                             q1 = find(c3, h3['body'], C('calculate_path', L(ren['mode']), L(ren['points']), L(ren['bufs']), ANY()))
                             q2 = find(c3, h3['body'], C('calculate_length', L(ren['bufs']), L(ren['expected_len']), ANY()))
                             if len(q1) == 1 and len(q2) == 1:
@@ -625,7 +625,7 @@ def run_curve_siblings(facts, out):
             out.anchor('SS-C19', 'accessor ' + fn, h is not None)
             if h is None:
                 continue
-            ctx = Ctx(facts, H.binding_inits(h))
+            ctx = Ctx(facts, H.binding_inits(h), h)
             pats = []
             for x in args:
                 pats.append(F(L('self'), x) if x in ('path', 'lengths') else L(x))
@@ -814,13 +814,13 @@ def run_c20(facts, out):
             out.add('SS-C20', 'encode::juicestream_events', 'same-derivation:' + nm, 'src/encode.rs', ok,
                     '' if ok else '`%s` is derived differently in slider_events and juicestream_events' % nm, ordinal=False)
         for nm, h in (('encode::slider_events', f1), ('encode::juicestream_events', f2)):
-            ctx = Ctx(facts, H.binding_inits(h))
+            ctx = Ctx(facts, H.binding_inits(h), h)
             pat = C('SliderEventsIter', L('start_time'), L('span_duration'), F(L('slider'), 'velocity'), L('tick_dist'),
                     L('dist'), L('span_count'), L('ticks'))
             ok = bool(find(ctx, h['body'], pat))
             if not ok:
                 for sh in shared:
-                    c3 = Ctx(facts, H.binding_inits(facts.hir[sh]))
+                    c3 = Ctx(facts, H.binding_inits(facts.hir[sh]), facts.hir[sh])
                     if find(c3, facts.hir[sh]['body'], pat):
                         ok = True
             out.add('SS-C20', nm, 'constructor-args', 'src/encode.rs', ok,
